@@ -16,9 +16,13 @@ CLAIMED = {
    text="Checks that a resolution is reported within group_interval+slack when its premises hold, that send_resolved:false never lists resolved alerts, that nothing is listed resolved while it fired during the whole possible flush window (or firing while resolved), that resolved-only first notifications do not occur, and that re-fired alerts are listed again (O1)."),
  "C06": dict(category="exploration", ref="5 (C06)", technique=SIM + "; 2-8 ingestion workers with holds in the group creation loop, maintenance sweep and flush; GET /alerts/groups probes",
    text="Every notification must be one group of one route of the reference router, complete with respect to members eligible during the whole flush window; group keys must be a stable function of (matcher path, group labels); GET /alerts/groups must show the model's partition; new and recreated groups must wait group_wait."),
+ "C13": dict(category="exploration", ref="5 (C13)", technique=SIM + "; contract model of ingestion (defaulting, overlap merge, visibility) carried as a set of allowed stored versions",
+   text="Histories of POST /api/v2/alerts (with/without start/end, overlapping, disjoint, out of order, resolved, re-fired, partly invalid batches) interleaved with provider GC at a per-run interval and GETs; every GET is compared with the set of outcomes the contract allows (three-valued where ranges only touch), plus stability between POSTs: an alert with a future end never vanishes or changes."),
  "C14": dict(category="fault_enumeration", ref="5 (C14)",
    technique="deterministic simulation: whole app in a synctest bubble; complete enumeration of ingestion-worker release orders via content-keyed holds at a yield point",
    text="Every release order of the ingestion workers for bursts of 2 and 3 back-to-back updates (all refresh/resolve/re-fire sequences, 2/3/4/8 workers) is executed against the real app (API -> provider -> dispatcher -> group -> webhook); sampled beyond (k=4..5, creation inside the burst). The oracle compares the group's copy (GET /alerts/groups updatedAt) and the following notifications with the last accepted submission. Enumeration is the right level: the schedule space at the one place where order can be lost is small and finite."),
+ "C18": dict(category="exploration", ref="5 (C18)", technique=SIM + "; admission histories with unordered end times x provider GC instants; blocking response writers for the GET-concurrency probe",
+   text="Per-name limit: counts of unexpired alerts per name after every POST, re-sends of admitted alerts, admission while room, refusal counter; silence count/size limits with rejected calls leaving state untouched; GET concurrency: `limit` GETs parked in flight, further GETs 503, POST unaffected, counter moved."),
  "C20": dict(category="exploration", ref="5 (C20)", technique=SIM + "; per-attempt outcome windows, flush reconstruction from the backoff schedule, notification-log dumps, payload laws",
    text="Every run injects receiver faults; oracles: recoverable failures are retried within the backoff cap unless the flush deadline intervenes, unrecoverable ones are not retried before the next tick, failed flushes with something new to say are attempted again, resolved alerts survive a failed flush, log entries with firing alerts have a preceding 2xx, siblings of a failing integration still obey dedup and O1, payload status/common labels/annotations/max_alerts/truncatedAlerts laws hold on every request."),
 }
